@@ -103,6 +103,17 @@ fn real_main() {
         if p == "C16" { r7::leap_seconds_and_double_encoding(&mut ctx, p); }
         if p == "C19" { r7::empty_auth_items(&mut ctx, p); }
         if ["C12", "C13"].contains(&p) { r7::empty_body_bad_charset(&mut ctx, p); }
+        // stages added after the ninth round
+        if ["C01", "C02"].contains(&p) { r7::method_letter_case(&mut ctx, p); }
+        if ["C02", "C10", "C12"].contains(&p) { r7::other_charsets(&mut ctx, p); }
+        if p == "C03" { r7::long_scope_near_misses(&mut ctx, p); }
+        if p == "C05" { r7::prefix_equals_name_and_padded_entries(&mut ctx, p); }
+        if p == "C10" { r7::thousand_parameters(&mut ctx, p); }
+        if p == "C11" { r7::sensitive_header_values(&mut ctx, p); }
+        if ["C12", "C15"].contains(&p) { r7::bad_fold_then_good_fold(&mut ctx, p); }
+        if p == "C15" { let d = r7::address_session_values(&mut ctx, p); props_validate2::check_passthrough(&mut ctx, d); }
+        if ["C05", "C11"].contains(&p) { r7::duplicate_case_requirement_histories(&mut ctx, p); }
+        if ["C13", "C14"].contains(&p) { r7::long_signature_behind_failing_lookup(&mut ctx, p); }
         if ["C16", "C19", "C13"].contains(&p) { r7::malformed_amz_date_beside_date(&mut ctx, p); }
         if ["C08", "C16"].contains(&p) { r7::tokens_and_damaged_dates(&mut ctx, p); }
         if ["C13", "C19"].contains(&p) { r7::many_auth_items(&mut ctx, p); }
